@@ -54,7 +54,9 @@ BehSets ==
                            << <<"p", "a", "ignore">>, <<"p", "b", "skip">>, <<"p", "c", "nothing">>, <<"q", "a", "ignore_render">>, <<"r", "b", "ignore">> >>,
                            << <<"p", "a", "mixed">>, <<"p", "b", "nothing">>, <<"q", "b", "ignore">>, <<"q", "c", "skip">>, <<"r", "a", "nothing">>, <<"r", "b", "nothing">>, <<"r", "c", "nothing">> >>,
                            (* white space only; something rendered by the deferred callback alone *)
-                           << <<"p", "a", "blank">>, <<"p", "b", "defer_only">>, <<"q", "b", "blank">>, <<"r", "b", "defer_only">>, <<"r", "c", "blank">> >> }
+                           << <<"p", "a", "blank">>, <<"p", "b", "defer_only">>, <<"q", "b", "blank">>, <<"r", "b", "defer_only">>, <<"r", "c", "blank">> >>,
+                           (* ErrIgnore signalled for an alias type (GenerateAliasType), nothing rendered: the previous file stays *)
+                           << <<"p", "a", "ignore_alias">>, <<"p", "b", "nothing">>, <<"q", "b", "ignore_alias">>, <<"r", "b", "ignore_alias">>, <<"r", "c", "nothing">> >> }
       [] Menu = "C02" -> IF Lite THEN { << <<"p", "b", "ignore">>, <<"q", "a", "nothing">> >> }
                          ELSE { <<>>, << <<"p", "b", "ignore">>, <<"q", "a", "nothing">> >> }
       [] Menu = "C05" -> { <<>>, << <<"p", "a", "skip">>, <<"p", "b", "nothing">>, <<"q", "c", "skip">> >> }     \* packages that feed state into an instance without rendering
